@@ -136,6 +136,13 @@ impl PartialEq for Value_ {
     fn eq(&self, other: &Self) -> bool {
         match (self, other) {
             (Value_::Int(i1), Value_::Int(i2)) => i1 == i2,
+            (Value_::Float(f1), Value_::Float(f2)) => {
+                // Compare the bits rather than using IEEE equality, so
+                // equality is reflexive (as `Eq` and the pointer
+                // shortcut in `Rc` require) and two floats are equal
+                // exactly when they print the same: -0.0 != 0.0.
+                f1.to_bits() == f2.to_bits()
+            }
             (
                 Value_::Fun { name_sym, .. },
                 Value_::Fun {
@@ -182,6 +189,21 @@ impl PartialEq for Value_ {
             ) => {
                 // We don't consider type when comparing tuple
                 // values.
+                self_items == other_items
+            }
+            (
+                Value_::Dict {
+                    items: self_items,
+                    value_type: _,
+                },
+                Value_::Dict {
+                    items: other_items,
+                    value_type: _,
+                },
+            ) => {
+                // Dicts are equal when they have the same keys with
+                // equal values. As with lists, we don't consider the
+                // value type.
                 self_items == other_items
             }
             (
